@@ -192,6 +192,55 @@ class World:
         new = self._new_handle(job, rec["p"], rec["sp"])
         self._inherit(new, rec)
 
+    def op_procdo(self, i, value):
+        """Pickle the handle into a freshly started interpreter, which initialises the job and writes a
+        document key through it (the unpickled handle is an independent handle in another process)."""
+        import subprocess
+        import sys
+        import tempfile
+
+        rec = self._h(i)
+        if rec is None or self._doc_stale(rec):
+            return
+        try:
+            blob = pickle.dumps(rec["job"])
+        except RecursionError:
+            return  # known finding, reported by op_pickle
+        code = (
+            "import pickle, sys\n"
+            "job = pickle.load(open(sys.argv[1], 'rb'))\n"
+            "job.init()\n"
+            "job.document['from_proc'] = int(sys.argv[2])\n"
+            "print(job.id)\n"
+        )
+        with tempfile.NamedTemporaryFile(suffix=".pkl", delete=False) as f:
+            f.write(blob)
+        try:
+            r = subprocess.run([sys.executable, "-B", "-c", code, f.name, str(value)], capture_output=True, text=True,
+                               timeout=120)
+        finally:
+            os.unlink(f.name)
+        self.ctx.count("ops_in_fresh_process")
+        if r.returncode != 0:
+            if rec.get("dir_stale") and "FileNotFoundError" in r.stderr:
+                self.ctx.count("stale_handle_enoent_accepted")
+                return
+            key = "pickled-handle-fails-in-new-process"
+            if "_thread_lock" in r.stderr and "KeyError" in r.stderr.strip().splitlines()[-1]:
+                key = "unpickled-collection-lock-not-registered-in-new-process"
+            elif "RecursionError" in r.stderr.strip().splitlines()[-1]:
+                key = "pickle-of-handle-with-shallow-copy-recursion"
+            self.viol(key, "a handle pickled into a fresh interpreter could not init / write its document",
+                      {"stderr": r.stderr[-600:]})
+            return
+        want = model.model_id(rec["sp"])
+        if r.stdout.strip() != want:
+            self.viol("pickled-handle-has-other-id", "the unpickled handle in the new process reports another id",
+                      {"got": r.stdout.strip(), "want": want})
+            raise Abort()
+        ent = self._ensure(rec)
+        ent["doc"]["from_proc"] = value
+
     def _exists(self, rec):
         return model.model_id(rec["sp"]) in self.model[rec["p"]]
 
